@@ -55,6 +55,15 @@ theorem output_format_is_the_codes :
     OpmVerif.Gen.RawConsts.outKeywordSep = [] ∧ OpmVerif.Gen.RawConsts.outColumns = columns :=
   OpmVerif.Lex.output_format_eq
 
+/-- The literal mirror of the `DeckOutput` state machine (`default_count`, `row_count`,
+`write_sep`, `stash_default`, `write<T>`, `start_record`, `end_record` — the model that is
+compared byte for byte with `operator<<(std::ostream&, const Deck&)`, TITLE and state
+carried between keywords included) writes, for every record, exactly the bytes of the
+two-stage writer the theorems above are about. -/
+theorem writer_state_machine_is_the_model (fmt : Bytes → Bytes) (flush split : Bool) (r : List Vals) :
+    (writeRecordM fmt flush split r).1 = writeRecord fmt flush split r :=
+  writeRecordM_eq fmt flush split r
+
 /-- `int_print_parse`: the decimal rendering of every `int` parses back to it. -/
 theorem int_print_parse (i : Int) (hlo : -2147483648 ≤ i) (hhi : i ≤ 2147483647) :
     OpmVerif.DeckIO.readIntDec (printInt i) = some i :=
@@ -120,6 +129,13 @@ example : parseRecord OpmVerif.DeckIO.conv demoSchema (writtenRecordText idFmt t
   decide +kernel
 
 example : ∀ t, idFmt (idFmt t) = idFmt t := fun _ => rfl
+
+/-- the writer's state leaks into a TITLE keyword (the model mirrors the code as it is):
+two defaults pending after the EQLDIMS-like record reappear as `2*` in the title. -/
+example : writeDeckM idFmt false ⟨0, 0⟩
+    [⟨b "EQLDIMS", false, false, [[[(.int 2, .deck)], [(.int 5, .dflt)], [(.int 7, .dflt)]]]⟩,
+     ⟨b "TITLE", false, false, [[[(.str (b "abc"), .deck)]]]⟩] =
+    b "EQLDIMS\n 2 /\nTITLE\n   2* 'abc'\n" := by decide +kernel
 example : printInt (-2147483648) = b "-2147483648" ∧ classify (starTok 12) = .rep 12 [] := by decide +kernel
 
 /-- the excluded shape: an item of size ALL that ends in defaults does not come back
